@@ -159,14 +159,14 @@ theorem foldF_derefR (reg : Bool) : ∀ (T : GoType), goodR ns T = true →
   · intro T _ _ hs v m r _ h
     rw [hs]
     exact ⟨m, h⟩
-  · intro T e hg hu _ hs ih v m r hw h
+  · intro T e hg hu hge hs ih v m r hw h
     rw [hs]
     cases m with
     | zero => simp [foldF] at h
     | succ m =>
       rw [foldF_underR hM m reg hg, hu] at h
       rcases wtR_ptr_inv hu hw with rfl | ⟨y, rfl, hy⟩
-      · rw [foldF_ptr_nil] at h
+      · rw [foldF_ptr_nil _ _ _ (customOf_goodR hM reg hge)] at h
         cases h
         rfl
       · rw [foldF_ptr] at h
